@@ -443,7 +443,7 @@ class Execution:
                             "fail": step.get("fail", []), "intr": intr, "editrun": bool(step.get("editrun")), "tree": self.tree()})
         self.events.append({"e": "Loaded", "blog": [], "dlog": [], "warn": ""})
         if step.get("printer"):
-            self.events.append({"e": "Printer", "mode": "h2", "verbose": False})
+            self.events.append({"e": "Printer", "mode": "h2", "verbose": bool(step.get("verbose"))})
         req = os.path.join(self.ctl, "req")
         trace = os.path.join(self.ctl, "trace")
         for pth in (req, trace):
@@ -476,6 +476,8 @@ class Execution:
         args += ["-k%d" % k]
         if step.get("dry"):
             args.append("-n")
+        if step.get("verbose"):
+            args.append("-v")
         args += step["targets"]
         proc = subprocess.Popen(args, env=env, stdout=subprocess.PIPE, stderr=subprocess.STDOUT, stdin=subprocess.DEVNULL)
         os.set_blocking(proc.stdout.fileno(), False)
